@@ -96,12 +96,11 @@ NextS(X, T, args, clr) ==
 
 ExtNodes == {j \in 1..N : Nodes[j].kind = "ext"}
 \* arguments of outside callers: id = number of the entering item, other fields from ArgVals
-ArgChoices ==
-  {a \in [ExtNodes -> UNION {[1..n -> ArgVals \cup {(S.entered + 1) % P!MOD}] : n \in 0..4}] :
-     \A j \in ExtNodes : /\ DOMAIN a[j] = 1..Len(Nodes[j].gen)
-                         /\ \A k \in 1..Len(Nodes[j].gen) :
-                              IF Nodes[j].gen[k] = "id" THEN a[j][k] = (S.entered + 1) % P!MOD
-                              ELSE a[j][k] \in ArgVals}
+IdArg == (S.entered + 1) % P!MOD
+ArgVecs(j) ==
+  {v \in [1..Len(Nodes[j].gen) -> ArgVals \cup {IdArg}] :
+     \A k \in 1..Len(Nodes[j].gen) : IF Nodes[j].gen[k] = "id" THEN v[k] = IdArg ELSE v[k] \in ArgVals}
+ArgChoices == {a \in [ExtNodes -> UNION {ArgVecs(j) : j \in ExtNodes}] : \A j \in ExtNodes : a[j] \in ArgVecs(j)}
 ArgsFor(a) == [j \in 1..N |-> IF j \in ExtNodes THEN a[j] ELSE <<>>]
 
 Label(T, args, clr) ==
